@@ -35,6 +35,9 @@ def check(run):
             run.rule("C06-slots", "a slot taken in a class is reserved in all its bases and propagated to all covariant classes, whatever root is allocated first", floor=10)
         crules.reserve_rules(run, "C06-slots", ast)
         crules.alloc_rules(run, "C06-slots", ast)
+        # which root's v-table starts at a slot other than 0 depends on the order in which the roots are visited: the bias
+        # (slot - first_slot) must be applied by the writer, the installed pointer and the sizes alike
+        crules.bias_rules(run, "C06-slots", ast)
         # whatever the order of registrations and unregistrations, update sees every live registration: the catalog operations
         # keep the list linked in every list-shape case (removing the FIRST registration is just one of the cases)
         if "C06-catalog" not in run.rules:
